@@ -39,9 +39,10 @@ Proof.
     (fun l st fe _ => forall fe', occ_blk (fe_body fe) (fe_st fe) fe' -> occ_es l st fe')
     (fun b st fe _ => forall fe', occ_blk (fe_body fe) (fe_st fe) fe' -> occ_blk b st fe')
     (fun l st fe _ => forall fe', occ_blk (fe_body fe) (fe_st fe) fe' -> occ_l l st fe')
-    (fun s st fe _ => forall fe', occ_blk (fe_body fe) (fe_st fe) fe' -> occ_s s st fe'));
-    intros.
-  par: solve [timeout 10 (econstructor; solve [eauto])].
+    (fun s st fe _ => forall fe', occ_blk (fe_body fe) (fe_st fe) fe' -> occ_s s st fe')).
+  all: intros.
+  (* goal by goal: backtracking across goals makes the constructor search exponential *)
+  all: [> (solve [econstructor; solve [eauto]]) .. ].
 Qed.
 
 (** * Code lengths *)
